@@ -168,8 +168,13 @@ func VerifC13ExtensionIDs() {
 		verifAssume(t != 2)
 		verifAssume(t != 8)
 		verifAssume(t != 1) // sequence headers force a new packet anyway
-		ext := verifU8("extbyte")
 		pl := verifBytes("obu.payload", 1)
+		if i > 0 && i < n-1 && verifCase("plain", 0, 1) == 1 {
+			// an OBU without extension header between two that have one
+			stream = append(stream, t<<3|0x02, 1, pl[0])
+			continue
+		}
+		ext := verifU8("extbyte")
 		stream = append(stream, t<<3|0x04|0x02, ext, 1, pl[0])
 		exts = append(exts, ext)
 	}
@@ -202,4 +207,43 @@ func VerifC13ExtensionIDs() {
 		}
 	}
 	verifCover("C13.extids.end")
+}
+
+// elements of 128 bytes and more: two-byte LEB128 length fields and MTUs of 130+
+func VerifC13LargeElements() {
+	size := verifPick("size", []int{126, 127, 128, 129, 255, 256, 257, 258, 259})
+	big := make([]byte, size)
+	for i := range big {
+		big[i] = 0x5A
+	}
+	edge := verifBytes("edge", 2)
+	big[0], big[size-1] = edge[0], edge[1]
+	t1, t2 := verifU8("type1")&0x0F, verifU8("type2")&0x0F
+	for _, t := range []uint8{t1, t2} {
+		verifAssume(t != 1)
+		verifAssume(t != 2)
+		verifAssume(t != 8)
+	}
+	var stream []byte
+	stream = append(stream, t1<<3|0x02)
+	if size < 128 {
+		stream = append(stream, uint8(size))
+	} else {
+		stream = append(stream, uint8(size&0x7F)|0x80, uint8(size>>7))
+	}
+	stream = append(stream, big...)
+	small := verifBytes("small", 2)
+	stream = append(stream, t2<<3|0x02, 2, small[0], small[1])
+	mtu := uint16(verifCase("mtu", 128, 133))
+	payloads := (&AV1Payloader{}).Payload(mtu, stream)
+	dep := &AV1Depacketizer{}
+	var got []byte
+	for _, pl := range payloads {
+		verifAssert("C13.large.mtu", len(pl) <= int(mtu))
+		out, err := dep.Unmarshal(pl)
+		verifAssert("C13.large.depacketize-noerr", err == nil)
+		got = append(got, out...)
+	}
+	verifAssert("C13.large.lossless", verifEqBytes(got, stream))
+	verifCover("C13.large.end")
 }
